@@ -69,6 +69,8 @@ inductive Op where
   | since (off count : Nat)        -- ReadSnapshotsSinceTopology
   | lookup (h : Hash)              -- ReadSnapshot
   | last                           -- LastSnapshot().TopologicalOrder
+  | nsince (off count : Nat)       -- node.ReadSnapshotsSinceTopology (kernel/node.go, used by p2p sync)
+  | tick                           -- one statistics tick of TopologicalSequence.TopoStats
   deriving Repr, DecidableEq
 
 inductive Out where
@@ -109,6 +111,16 @@ def step (s : S) : Op → S × Out
       | some h' => (s, .found (some (o, h')))
   | .last =>
     if s.topo.isEmpty then (s, .panic) else (s, .order (lastOrder s.topo))
+  | .nsince off count =>
+    -- the node-level wrapper is the identity on the storage listing (inclusive cursor)
+    match s.seq with
+    | none => (s, .nonode)
+    | some _ => if count > maxCount then (s, .err) else (s, .list (readSince s.topo off count))
+  | .tick =>
+    -- TopoStats reads `seq` to compute rates and moves its own checkpoints; `seq` is not written
+    match s.seq with
+    | none => (s, .nonode)
+    | some n => (s, .order n)
 
 def final (s : S) : List Op → S
   | [] => s
